@@ -3080,6 +3080,23 @@ impl State {
         String::from("<native>")
     }
 
+    /// Dictionary entries, oldest first: (name, kind, immediate, address / heap index, constant, native name).
+    pub fn verif_dict(&self) -> Vec<(String, &'static str, bool, usize, Option<Cell>, String)> {
+        self.dict
+            .iter()
+            .map(|e| match &e.entry {
+                Entry::Constant(c) => (e.name.to_string(), "const", false, 0, Some(c.clone()), String::new()),
+                Entry::Variable(r) => (e.name.to_string(), "var", false, r.index(), None, String::new()),
+                Entry::Function { immediate, xf: Xfn::Interp(a), .. } => {
+                    (e.name.to_string(), "interp", *immediate, *a, None, String::new())
+                }
+                Entry::Function { immediate, xf: Xfn::Native(x), .. } => {
+                    (e.name.to_string(), "native", *immediate, 0, None, self.verif_native_name(x))
+                }
+            })
+            .collect()
+    }
+
     /// One entry per emitted opcode, parallel to the debug map.
     pub fn verif_code(&self) -> Vec<VerifOp> {
         let rel = |ip: usize, r: &RelativeJump| r.calculate(ip) as i128 - ip as i128;
